@@ -84,6 +84,46 @@ Theorem C13_utf8_len_ge : forall t b, utf8 t = Some b -> (length t <= length b)%
 Proof. exact utf8_len_ge. Qed.
 Print Assumptions C13_utf8_len_ge.
 
+(* The byte stream of a connection is self-delimiting: whatever frames were written back to back (each accepted by the
+   independent frame decoder, in particular every frame built by `frame`), a reader that only follows the 4-byte sizes
+   recovers exactly those frames, in order, with nothing left over - for every number and size of frames. If the last
+   write was cut short (connection closed mid-write), the complete frames before it are still recovered and the cut
+   tail is left unread. Two writers interleaving their bytes (a ping spliced into a half-written dispatch) break the
+   premise "stream = concatenation of the written frames", which the correspondence check tests on the real socket. *)
+Theorem C13_stream_self_delimiting : forall (ws : list bytes),
+  Forall (fun f => exists x, parse_frame f = Some x) ws ->
+  split_stream (S (length (concat ws))) (concat ws) = (ws, []).
+Proof.
+  intros ws H. assert (W : Forall well_framed ws).
+  { eapply Forall_impl; [|exact H]. intros f [x Hx]. exact (parse_frame_well_framed f x Hx). }
+  apply split_stream_concat; auto. pose proof (concat_length_ge ws W). lia.
+Qed.
+Print Assumptions C13_stream_self_delimiting.
+
+Theorem C13_stream_cut_tail : forall (ws : list bytes) f p q,
+  Forall (fun f => exists x, parse_frame f = Some x) ws -> (exists x, parse_frame f = Some x) ->
+  f = p ++ q -> q <> [] ->
+  split_stream (S (length (concat ws ++ p))) (concat ws ++ p) = (ws, p).
+Proof.
+  intros ws f p q H [x Hx] E Q. assert (W : Forall well_framed ws).
+  { eapply Forall_impl; [|exact H]. intros g [y Hy]. exact (parse_frame_well_framed g y Hy). }
+  apply (split_stream_concat_partial ws f p q W (parse_frame_well_framed f x Hx) E Q).
+  pose proof (concat_length_ge ws W). rewrite app_length. lia.
+Qed.
+Print Assumptions C13_stream_cut_tail.
+
+(* every frame the writer builds satisfies the premise above *)
+Theorem C13_frames_are_well_formed : forall mtype tag body f,
+  frame mtype tag body = Some f -> 0 <= tag < 16777216 -> exists x, parse_frame f = Some x.
+Proof. intros mtype tag body f H Ht. eexists. exact (parse_frame_frame _ _ _ _ H Ht). Qed.
+Print Assumptions C13_frames_are_well_formed.
+
+Example C13_stream_example :
+  stream_ok [[0;0;0;4;65;0;0;1]; [0;0;0;4;65;0;0;2]] [0;0;0;4;65;0;0;1;0;0;0;4;65;0;0;2] true = true
+  /\ stream_ok [[0;0;0;4;65;0;0;1]; [0;0;0;4;65;0;0;2]] [0;0;0;4;65;0;0;1;0;0;0] false = true
+  /\ stream_ok [[0;0;0;4;65;0;0;1]; [0;0;0;4;65;0;0;2]] [0;0;0;4;0;0;0;4;65;0;0;2;65;0;0;1] true = false.
+Proof. vm_compute. repeat split. Qed.
+
 (* Non-vacuity: a non-ASCII context entry, a deadline, tag 2^24-2; the frame exists and decodes. *)
 Example C13_example :
   exists f, tdispatch_frame 16777214
